@@ -421,6 +421,35 @@ func (ls locksim) runReadOnly(c *Case, dir string, out *Outcome) {
 	if fileHash(path) != before {
 		fail("file-changed", "the file's SHA-256 changed although it was only opened read-only")
 	}
+	// (c') the same for read transactions of a read-write handle: what they hand out is not a writable view either
+	if len(viol) == 0 {
+		rw := work.NewExec(path, cfg)
+		rw.Cur = want
+		rw.LastTxid = r.LastTxid
+		if err := rw.Open(rw.DefaultOpts()); err != nil {
+			fail("rw-open", "read-write Open after the read-only handle was closed: %v", err)
+		} else {
+			ls.scribble(rw, fail, out)
+			for _, v := range rw.Viol {
+				v.Msg = "after writing into memory returned by a read transaction of a read-write handle: " + v.Prop + "/" + v.Class + ": " + v.Msg
+				v.Prop, v.Class = "C17", "returned-memory-writable"
+				viol = append(viol, v)
+			}
+			_ = rw.DB.Close()
+			rw.DB = nil
+			out.probe("scribble-on-read-write-handle", 1)
+			if data, err := os.ReadFile(path); err == nil && len(rw.Viol) == 0 {
+				if im, err := dec.Load(data); err == nil {
+					if wi, ok := im.Winner(); ok {
+						if d := model.Diff(im.Decode(wi).Root, want); d != "" {
+							fail("returned-memory-writable", "after writing into memory returned by a read transaction the file decodes to different content: %s", d)
+						}
+					}
+				}
+			}
+			before = fileHash(path) // (a read-write open may have flushed a freelist)
+		}
+	}
 	// an Open that fails must not leave the file locked
 	ls.failedOpens(dir, cfg.PageSize, fail, out)
 	// CLI inspection commands
